@@ -9,6 +9,8 @@ import (
 	"time"
 
 	"github.com/aukilabs/hagall-common/messages/hagallpb"
+	"github.com/aukilabs/hagall-common/messages/vikjapb"
+	"google.golang.org/protobuf/types/known/timestamppb"
 
 	"verif/internal/check"
 	d "verif/internal/driver"
@@ -306,3 +308,73 @@ func HasSite(all []string, site string) bool {
 }
 
 var _ = strings.Contains
+
+// G6: two participants write the same (entity, action name) with equal
+// timestamps; the first writer is held after it stored its action, before it
+// relays it (at Session.Broadcast), the second stores and relays, then the
+// first is released. Members apply the relays in the opposite order to the
+// store: deterministic reproducer of the listed finding
+// view/diverged-after-concurrent-block/same-key-writers.
+func G6SameKeyActionWriters(p *sut.Proc) *Result {
+	return run("G6 same-key action writers", func(r *Result) {
+		const class = "same-key-writers(action)"
+		p1 := scen.MustDial(p, "vod")
+		defer p1.Close()
+		_, _, err := p1.Join("")
+		must(err)
+		p2 := scen.MustDial(p, "vod")
+		defer p2.Close()
+		_, _, err = p2.Join(p1.SID)
+		must(err)
+		w := scen.MustDial(p, "vod")
+		defer w.Close()
+		_, _, err = w.Join(p1.SID)
+		must(err)
+		e, err := p1.AddEntity(true, 1)
+		must(err)
+		p1.Barrier()
+		p2.Barrier()
+		w.Barrier()
+		rt(p, "op=hold&site=models.Session.Broadcast&max=1")
+		defer p.RT("op=reset")
+		mk := func(c *scen.C, data string) *vikjapb.EntityActionRequest {
+			return &vikjapb.EntityActionRequest{Type: d.TActionReq, Timestamp: d.NewTag(), RequestId: c.NextReqID(),
+				EntityAction: &vikjapb.EntityAction{EntityId: e, Name: "shared", Timestamp: &timestamppb.Timestamp{Seconds: 1_900_000_000}, Data: []byte(data)}}
+		}
+		must(p1.Send(mk(p1, "first-writer")))
+		if !gateWait(p, "models.Session.Broadcast", 1) {
+			r.Inconclusive = "G6: the first writer never reached Session.Broadcast"
+			return
+		}
+		r.GateReached = true
+		a, _, err := p2.Do(mk(p2, "second-writer"))
+		must(err)
+		if a == nil || a.Type == d.TError {
+			r.Inconclusive = fmt.Sprint("G6: the second writer was refused: ", a)
+			return
+		}
+		rt(p, "op=release&site=models.Session.Broadcast")
+		p1.Barrier()
+		win, err := w.Barrier()
+		must(err)
+		var order []string
+		for _, ev := range win {
+			if m, ok := ev.M.(*vikjapb.EntityActionBroadcast); ok {
+				order = append(order, string(m.EntityAction.Data))
+			}
+		}
+		r.Signature = fmt.Sprintf("store(first) < store(second) < relay(second) < relay(first): witness saw %v", order)
+		snap, err := scen.Probe(p, p1.SID, "vod")
+		must(err)
+		server := ""
+		for _, ac := range snap.Vikja.GetEntityActions() {
+			if ac.EntityId == e && ac.Name == "shared" {
+				server = string(ac.Data)
+			}
+		}
+		if len(order) == 2 && order[len(order)-1] != server {
+			r.Findings = append(r.Findings, &check.Finding{Props: []string{"C01"}, Clause: "view/diverged-after-concurrent-block", Trigger: class, Engine: "E2 gated interleaving",
+				Detail: fmt.Sprintf("two accepted writes to one (entity, action name) from different connections: the witness received the relays in the order %v, so its view ends with %q, while the server (state handed to a probe) holds %q", order, order[len(order)-1], server)})
+		}
+	})
+}
